@@ -281,7 +281,7 @@ class PortsConc(BaseEngine):
             return base
         base['kind'] = 'pq_raw'
         base['wire'] = list(wire)
-        base['senders'] = [[]]
+        base['senders'] = [[]] if rng.random() < 0.6 else [[], []]
         base['chunks'] = [rng.randint(1, 5) for _ in range(rng.randint(1, 8))]
         base['hows'] = [pick(rng, ('list', 'bytes', 'bytearray')) for _ in range(3)]
         base['receivers'] = [[[weighted(rng, (('poll', 5), ('receive', 2), ('iter_pending', 2))), -1]
@@ -453,6 +453,28 @@ class PortsConc(BaseEngine):
 
         fed_log = []         # pq_raw: (return_step, total bytes fed so far)
 
+        turn = {'next': 0, 'pos': 0}
+        turn_key = object()
+
+        def relay_driver(si):
+            # the stream is delivered in order, but by whichever of several driver threads has its turn
+            data = plan['wire']
+            n = len(plan['senders'])
+            while turn['pos'] < len(data):
+                if turn['next'] % n != si:
+                    sched.block(turn_key, 'relay.wait')     # parked until the thread whose turn it is has fed
+                    continue
+                size = plan['chunks'][turn['next'] % len(plan['chunks'])]
+                piece = data[turn['pos']:turn['pos'] + size]
+                guarded(f'S{si}', 'put_bytes', port._queue.put_bytes, list(piece))
+                turn['pos'] += len(piece)
+                turn['next'] += 1
+                fed_log.append((sched.total_steps, turn['pos']))
+                log.ev('fed', si, turn['pos'])
+                sched.wake(turn_key)
+            sched.wake(turn_key)
+            done['senders'] += 1
+
         def raw_driver():
             data = plan['wire']
             pos = 0
@@ -532,6 +554,8 @@ class PortsConc(BaseEngine):
                     return files_body(si)
                 if kind == 'twin_parsers':
                     return twin_body(si)
+                if kind == 'pq_raw' and len(plan['senders']) > 1:
+                    return relay_driver(si)
                 if kind == 'pq_raw':
                     return raw_driver()
                 if kind == 'pq':
